@@ -415,3 +415,15 @@ PROPS["C14"] = dict(
     ],
     rule="live mode: trees of 1-4 scoped children (some owning nested scopes or join!), explicit joins, at most one fault (owner panic in f, leaf panic, owner cancelled inside f or while waiting); non-trivial = at least one scoped spawn; distinct = SHA-1 of the canonical trace",
 )
+
+
+# ---------------------------------------------------------------------------------------------------------------------
+# thorough tier = as deep as the budget allows: the counts written next to each family were calibrated for a few
+# minutes per property; the cheap ones (seconds per thousand scenarios) are scaled up here so that every thorough run
+# spends minutes, not seconds, per family (systematic `detx` families are not scaled: their cost is per schedule).
+THOROUGH_SCALE = {"C02": 5, "C03": 2, "C05": 2, "C06": 5, "C07": 5, "C09": 5, "C10": 2, "C11": 2, "C12": 5, "C13": 4,
+                  "C14": 5, "C15": 5, "C16": 5, "C17": 3, "C18": 2, "C19": 5}
+for _pid, _k in THOROUGH_SCALE.items():
+    for _f in PROPS.get(_pid, {}).get("families", []):
+        if _f["mode"] in ("det", "live") and _f.get("thorough", 0) > _f.get("quick", 0):
+            _f["thorough"] = _f["thorough"] * _k
